@@ -56,6 +56,9 @@ def plan(tier, seed):
     # pre-computed distances
     for a, b in E.chunks(E.n_sequences(4, 5), 128):
         shards.append(("api", 3, 2, "euclidean", a, b))
+    for a, b in E.chunks(E.n_graphs(4, 3), 250):
+        shards.append(("emb0", 4, 3, a, b))
+    shards.append(("emb0", 3, 3, 0, 27))
     return shards
 
 
@@ -85,6 +88,16 @@ def programs(shard, seed):
             for lab in E.labelings(nl):
                 yield {"model": "SemiSupervisedOPF", "mode": "pre", "W": W,
                        "labels": list(E.rename_classes(lab, seed)), "n_unlabeled": nu}
+    elif kind == "emb0":
+        # empty unlabeled set AND a non-identity index array into a larger pre-computed matrix
+        _, nl, m, a, b = shard
+        table = E.value_table(seed, m, zero=True)
+        I = c01.embedding(nl, seed)
+        for gi in range(a, b):
+            W = c01.embed(E.matrix_from_ranks(nl, E.graph_ranks(nl, m, gi), table), I, table)
+            for lab in E.labelings(nl):
+                yield {"model": "SemiSupervisedOPF", "mode": "pre", "W": W, "I_train": I,
+                       "labels": list(E.rename_classes(lab, seed)), "n_unlabeled": 0}
     elif kind == "api":
         _, nl, nu, metric, a, b = shard
         base = [(0.0,), (1.0,), (2.0,), (3.0,)]
